@@ -207,7 +207,21 @@ func (c C16) Execute(sc *drv.Scenario, w *drv.World) (*drv.Violation, error) {
 		case "njpair":
 			v, err = c.pair(e)
 		case "njrestart":
+			var ftBefore []byte
+			var ftSt int
+			if ftSt, ftBefore, err = w.HTTP("GET", e.base(e.head)+"/fieldtimes", nil); err != nil {
+				return nil, err
+			}
 			if _, err = w.Restart(op.Mode); err == nil {
+				st2, ftAfter, e2 := w.HTTP("GET", e.base(e.head)+"/fieldtimes", nil)
+				if e2 != nil {
+					return nil, e2
+				}
+				if bs, as := njNormObj(proto.Resp{Status: ftSt, Body: ftBefore}), njNormObj(proto.Resp{Status: st2, Body: ftAfter}); bs != as {
+					return &drv.Violation{Prop: "C16", Oracle: "head-vs-restart", Sig: "fieldtimes of the head differ after a restart", Step: i,
+						Detail: fmt.Sprintf("GET fieldtimes before the restart (%s): %s\nafter: %s", op.Mode, bs, as)}, nil
+				}
+				w.Stats.Probe("fieldtimes-compared-across-restart")
 				v, err = c.comparePairs(e, "after restart ("+op.Mode+")")
 				if v == nil && err == nil {
 					v, err = c.checkModel(e, "after restart")
